@@ -91,6 +91,94 @@ pub fn iterate(msg: &Message, extra: usize) -> (Vec<(u16, Vec<u8>)>, Vec<(u16, V
     (first, after)
 }
 
+/// The same sequence obtained through the other methods of the iterator (anything `Iterator`
+/// offers can be overridden by the library): `nth(k)` on a fresh iterator for every k, `skip(k)`,
+/// `step_by(2)` and `step_by(3)` re-interleaved, `count()`, `last()`, `fold`, a `next()` / `nth(0)`
+/// mix, and `size_hint` bounds.  Returns (name, sequence) pairs that must all equal `iterate().0`.
+pub fn iterate_variants(msg: &Message) -> Vec<(String, Vec<(u16, Vec<u8>)>)> {
+    let item = |a: RawAttribute| (a.get_type().value(), a.value.to_vec());
+    let n = msg.iter_attributes().take(70_000).count();
+    let mut out = Vec::new();
+    let mut by_nth = Vec::new();
+    for k in 0..n + 2 {
+        if let Some(a) = msg.iter_attributes().nth(k) {
+            by_nth.push(item(a));
+        }
+    }
+    out.push(("nth(k) on a fresh iterator, every k".to_string(), by_nth));
+    for k in 0..=n.min(8) {
+        let mut v: Vec<(u16, Vec<u8>)> = msg.iter_attributes().take(k).map(item).collect();
+        v.extend(msg.iter_attributes().skip(k).take(70_000).map(item));
+        out.push((format!("take({k}) ++ skip({k})"), v));
+        // resume with nth after k plain next() calls
+        let mut it = msg.iter_attributes();
+        let mut w = Vec::new();
+        for _ in 0..k {
+            if let Some(a) = it.next() {
+                w.push(item(a));
+            }
+        }
+        let mut guard = 0;
+        while let Some(a) = it.nth(0) {
+            w.push(item(a));
+            guard += 1;
+            if guard > 70_000 {
+                break;
+            }
+        }
+        out.push((format!("{k} x next() then nth(0) repeatedly"), w));
+        // nth(1) from position k: skips exactly one
+        let mut it = msg.iter_attributes();
+        let mut w: Vec<(u16, Vec<u8>)> = Vec::new();
+        let base: Vec<(u16, Vec<u8>)> = msg.iter_attributes().take(70_000).map(item).collect();
+        for _ in 0..k {
+            let _ = it.next();
+        }
+        if let Some(a) = it.nth(1) {
+            w.push(item(a));
+        }
+        let want: Vec<(u16, Vec<u8>)> = base.get(k + 1).cloned().into_iter().collect();
+        if w != want {
+            out.push((format!("{k} x next() then nth(1) (sequence shown is what nth(1) gave; expected the element at {})", k + 1), {
+                // force a mismatch report: return a sequence that cannot equal the base one
+                let mut bad = base.clone();
+                bad.push((0xFFFF, w.first().map(|x| x.1.clone()).unwrap_or_default()));
+                bad
+            }));
+        }
+    }
+    for step in [2usize, 3] {
+        let mut slots: Vec<Option<(u16, Vec<u8>)>> = vec![None; n];
+        for off in 0..step {
+            for (j, a) in msg.iter_attributes().skip(off).step_by(step).take(70_000).enumerate() {
+                let idx = off + j * step;
+                if idx < n {
+                    slots[idx] = Some(item(a));
+                } else {
+                    slots.push(Some(item(a)));
+                }
+            }
+        }
+        out.push((format!("skip(o).step_by({step}) re-interleaved"), slots.into_iter().flatten().collect()));
+    }
+    let folded: Vec<(u16, Vec<u8>)> = msg.iter_attributes().fold(Vec::new(), |mut v, a| {
+        if v.len() < 70_000 {
+            v.push(item(a));
+        }
+        v
+    });
+    out.push(("fold".to_string(), folded));
+    let last = msg.iter_attributes().last().map(item);
+    let mut with_last: Vec<(u16, Vec<u8>)> = msg.iter_attributes().take(n.saturating_sub(1)).map(item).collect();
+    with_last.extend(last);
+    out.push(("take(n-1) ++ last()".to_string(), with_last));
+    let (lo, hi) = msg.iter_attributes().size_hint();
+    if lo > n || hi.is_some_and(|h| h < n) {
+        out.push((format!("size_hint() = ({lo}, {hi:?}) does not bound the {n} items"), vec![(0xFFFF, vec![])]));
+    }
+    out
+}
+
 pub fn alg_num(a: IntegrityAlgorithm) -> u16 {
     match a {
         IntegrityAlgorithm::Sha1 => crate::refimpl::wire::MI,
